@@ -95,6 +95,10 @@ def mods_s(draw, base, stochastic_bias=False):
             mods['reverse_transitions'] = True
         if draw(st.integers(0, 3)) == 0:
             mods['reward_scale'] = draw(st.sampled_from([0.5, 2.0, -1.0, 3.0]))
+        if draw(st.integers(0, 3)) == 0:
+            # the terminating function nested inside reductions, next to a wall-bump child that carries a parameter only its reward
+            # namesake knows (parameters a component does not accept are ignored)
+            mods['nest_term'] = draw(st.sampled_from(['any_of_all', 'all_of_any', 'any_with_extra_parameter']))
     return mods
 
 
@@ -124,6 +128,14 @@ def apply(base, mods):
             data['transition_functions'].append({'name': t})
     if mods.get('reverse_transitions'):
         data['transition_functions'] = data['transition_functions'][::-1]
+    if 'nest_term' in mods:
+        orig = data['terminating_function']
+        if mods['nest_term'] == 'any_of_all':
+            data['terminating_function'] = {'name': 'reduce_any', 'terminating_functions': [{'name': 'reduce_all', 'terminating_functions': [copy.deepcopy(orig), copy.deepcopy(orig)]}]}
+        elif mods['nest_term'] == 'all_of_any':
+            data['terminating_function'] = {'name': 'reduce_all', 'terminating_functions': [{'name': 'reduce_any', 'terminating_functions': [copy.deepcopy(orig), {'name': 'bump_into_wall'}]}, copy.deepcopy(orig)]}
+        else:
+            data['terminating_function'] = {'name': 'reduce_any', 'terminating_functions': [copy.deepcopy(orig), {'name': 'bump_into_wall', 'reward': 0.0}]}
     if 'reward_scale' in mods:
         for r in data['reward_functions']:
             for k, v in list(r.items()):
